@@ -11,6 +11,11 @@
 // Release returned, and whenever no executor is blocked the started runs EQUAL the list (bounded
 // wait on the predicted count) and When() reports the earliest pending due time. Main-loop
 // wake-ups are counted through the verif hook "scheduler.loop".
+// Release / Schedule calls may carry a "mid-call advance": the scheduler's call counters
+// (SchedulerMetrics.releaseCalls / scheduleCalls) are wrapped so that the harness regains control
+// inside the call, moves the clock and lets the main loop dispatch and re-queue what is due —
+// including the task being released / replaced — before the call reaches its critical section.
+// The model treats this as [advance; call]; afterwards nothing of a released task may start.
 //
 // TestPropNoSpinRealClock (real clock): a few tasks, the earliest one 150-300 ms away, the others
 // >= 1 minute away; the earliest is kept / released / re-scheduled; the main loop may wake up only
@@ -33,7 +38,7 @@ import (
 )
 
 var rec = ev.For("C24", "exploration",
-	"case = (workers, start time, history of schedule/release/advance/close-gate/open-gates operations) on a TreeScheduler with a mock clock; non-trivial = at some point >= 2 tasks with different periods are scheduled, one advance (or catch-up schedule) makes >= 2 runs of one task due at once, and a task is released or re-scheduled while it still has due runs that have not started (slow executor); distinct by the canonical rendering of configuration and operations. Real-clock sub-test: case = (near task(s), far tasks, what happens to them); non-trivial = a near task is released or re-scheduled before it is due")
+	"case = (workers, start time, history of schedule/release/advance/close-gate/open-gates operations) on a TreeScheduler with a mock clock; non-trivial = at some point >= 2 tasks with different periods are scheduled, one advance (or catch-up schedule) makes >= 2 runs of one task due at once, and a task is released or re-scheduled while it still has due runs that have not started (slow executor); Release/Schedule calls optionally overlap a clock advance that dispatches tasks while the call is in flight; distinct by the canonical rendering of configuration and operations. Real-clock sub-test: case = (near task(s), far tasks, what happens to them); non-trivial = a near task is released or re-scheduled before it is due")
 
 func genSched(t *rapid.T, id int) op {
 	return op{K: "sched", ID: id,
@@ -56,6 +61,16 @@ func genAdvance(t *rapid.T, id int) op {
 	return o
 }
 
+// withMid lets the clock advance while the Release / Schedule call o is in flight.
+func withMid(t *rapid.T, o op) op {
+	o.Mid = true
+	o.D = int64(rapid.SampledFrom(advancePool[:8]).Draw(t, "midD"))
+	if rapid.IntRange(0, 2).Draw(t, "midByPeriods") > 0 {
+		o.Periods = rapid.IntRange(1, 3).Draw(t, "midPeriods")
+	}
+	return o
+}
+
 func genOps(t *rapid.T) []op {
 	n := rapid.IntRange(4, 20).Draw(t, "n")
 	var ops []op
@@ -63,14 +78,43 @@ func genOps(t *rapid.T) []op {
 	ops = append(ops, genSched(t, drawID()))
 	for len(ops) < n {
 		kind := rapid.SampledFrom([]string{"sched", "sched", "sched", "sched", "advance", "advance", "advance", "advance", "advance",
-			"release", "release", "close", "open", "burst", "burst"}).Draw(t, "kind")
+			"release", "release", "close", "open", "burst", "burst", "overlap"}).Draw(t, "kind")
 		switch kind {
 		case "sched":
-			ops = append(ops, genSched(t, drawID()))
+			o := genSched(t, drawID())
+			if rapid.IntRange(0, 5).Draw(t, "schedMid") == 0 {
+				o = withMid(t, o)
+			}
+			ops = append(ops, o)
 		case "advance":
 			ops = append(ops, genAdvance(t, drawID()))
-		case "release", "close":
+		case "release":
+			o := op{K: kind, ID: drawID()}
+			if rapid.IntRange(0, 2).Draw(t, "releaseMid") == 0 {
+				o = withMid(t, o)
+			}
+			ops = append(ops, o)
+		case "close":
 			ops = append(ops, op{K: kind, ID: drawID()})
+		case "overlap":
+			// a task's run comes due and is dispatched while a Release (or a replacing Schedule) of
+			// that very task is in flight; afterwards the clock passes the following due times
+			id := drawID()
+			s := genSched(t, id)
+			s.Back = rapid.IntRange(0, 1).Draw(t, "overlapBack")
+			ops = append(ops, s)
+			p := specPool[s.Spec].Period
+			var call op
+			if rapid.IntRange(0, 3).Draw(t, "overlapCall") == 0 {
+				call = genSched(t, id)
+			} else {
+				call = op{K: "release", ID: id}
+			}
+			call.Mid = true
+			call.Periods = rapid.IntRange(1, 3).Draw(t, "overlapPeriods")
+			call.D = int64(p)
+			ops = append(ops, call)
+			ops = append(ops, op{K: "advance", ID: id, D: int64(time.Duration(rapid.IntRange(1, 3).Draw(t, "overlapAfterPeriods"))*p + offsetPool[s.Off])})
 		case "open":
 			ops = append(ops, op{K: "open"})
 		case "burst":
@@ -113,6 +157,9 @@ func TestPropSchedulerHistories(t *testing.T) {
 		}
 		ops := genOps(t)
 		st, f, at := runHistory(cfg, ops)
+		if st != nil && st.classes["mid:in-flight-call-already-effective-history-cut"] > 0 {
+			rec.Class("history:cut-at-in-flight-call")
+		}
 		caseJSON := map[string]any{"config": cfg, "ops": ops}
 		if f != nil && f.timing {
 			// decided by a real-time wait: confirm by replaying the same history twice
@@ -163,6 +210,12 @@ func TestPropSchedulerHistories(t *testing.T) {
 		}
 		if st.releaseDue {
 			rec.Class("history:release-with-unstarted-due-runs")
+		}
+		if st.midDispatch {
+			rec.Class("history:dispatch-while-release-or-schedule-of-that-task-in-flight")
+		}
+		if st.midZombie {
+			rec.Class("history:clock-passes-next-due-time-of-task-released-during-dispatch")
 		}
 		if st.twoPeriods && st.multiDue && st.releaseDue {
 			rec.NonTrivial(canon(cfg, ops))
